@@ -382,6 +382,8 @@ def _check(ctx: Ctx) -> None:
     for s in pre:
         if isinstance(s.value, ast.Subscript) and isinstance(s.value.slice, ast.Constant) and s.value.slice.value == 1 and isinstance(s.targets[0], ast.Name):
             pairing = s.targets[0].id
+    if pairing is None and isinstance(loop.target, ast.Name):
+        pairing = f"{loop.target.id}[1]"           # (channel, pairing) items read in place: no local names the pairing
     want = {"VALUE": f"{pairing}[1].time - {pairing}[0].time", "PITCH": f"{pairing}[0].note", "TRACK": f"{pairing}[0].channel"}
     for pr, w in want.items():
         srcs = fld_src.get(pr, set())
@@ -392,7 +394,7 @@ def _check(ctx: Ctx) -> None:
             c = nze.norm(ast.parse(s_, mode="eval").body)
             got.append(c.canon())
             ok = ok and c == wsym
-        ctx.check(ok, "NOTE", f"tokenise: {pr} field = {w}", function=fe.qualname, construct=f"emitted {pr} field is not {w.replace(pairing or '', 'pairing')}",
+        ctx.check(ok, "NOTE", f"tokenise: {pr} field = {w}", function=fe.qualname, construct=f"emitted {pr} field is not {w.replace(pairing, 'pairing') if pairing else w}",
                   message=f"{got}", file=fe.file, node=note_if)
     # running values
     for pr, flag in (("TRACK", "flag_fuse_track"), ("VALUE", "flag_fuse_value"), ("VELOCITY", "flag_fuse_velocity")):
